@@ -591,6 +591,8 @@ def _elem(it: ast.expr):
             return tuple(parts), cnts
         if fn in ("list", "tuple", "iter") and len(it.args) == 1:
             return _elem(it.args[0])
+        if fn in ("repeat", "itertools.repeat") and len(it.args) == 1 and not it.keywords:
+            return it.args[0], []       # the same value at every iteration, as many as the other operands of a zip ask for
         if isinstance(it.func, ast.Attribute) and it.func.attr in ("tolist",) and not it.args:
             return _elem(it.func.value)
         if fn in ("reversed", "sorted", "set", "map", "filter"):
@@ -1262,6 +1264,12 @@ def is_pure_cached_function(prog: Program, f: FuncInfo) -> bool:
     it, stores it in an attribute or container, or passes it on to code that could (followed through `return f(...)` two levels up)."""
     if not _closed_function(prog, f):
         return False
+    # the cached array is frozen before it is handed out (`x.setflags(write=False)` on every returned local): nobody can write into it
+    rets = [r for r in ast.walk(f.node) if isinstance(r, ast.Return) and r.value is not None]
+    if rets and all(isinstance(r.value, ast.Name) and any(
+            isinstance(c, ast.Call) and isinstance(c.func, ast.Attribute) and c.func.attr == "setflags" and isinstance(c.func.value, ast.Name) and c.func.value.id == r.value.id
+            and any(k.arg == "write" and isinstance(k.value, ast.Constant) and k.value.value is False for k in c.keywords) for c in ast.walk(f.node)) for r in rets):
+        return True
     return _result_only_read(prog, f, 0)
 
 
@@ -1289,6 +1297,8 @@ def _value_only_read(prog: Program, g: FuncInfo, node: ast.AST, depth: int) -> b
     if isinstance(par, ast.Call):
         d = dotted(par.func) or ""
         q = prog.qualify(g.module, d) or d
+        if isinstance(par.func, ast.Attribute) and par.func.attr in ("choice",) and par.func.value is not node:
+            return True         # Generator.choice(options, ...) reads its population
         if d in PURE_CONSUMERS or q.startswith(("numpy.", "scipy.", "math.")) and not q.endswith((".put", ".copyto", ".place", ".putmask", ".fill_diagonal")) and not any(k.arg == "out" for k in par.keywords):
             return True
         return False
